@@ -605,7 +605,15 @@ func genOpCase(t *rapid.T, typ string, ctx *opGenCtx) *opCase {
 	case class == "valid" || class == "signed-by-uncommitted-key":
 		c.Bytes = b.bytes()
 	case class == "patches-inapplicable":
-		b.Delta["patches"] = append(append([]interface{}{}, b.Delta["patches"].([]interface{})...), inapplicablePatch)
+		// the patch that does not apply stands behind, in front of or between the others, also in front of a replace (which
+		// discards the document, not the failure)
+		ps := append([]interface{}{}, b.Delta["patches"].([]interface{})...)
+		at := rapid.IntRange(0, len(ps)).Draw(t, "inapplicableAt")
+		ps = append(ps[:at:at], append([]interface{}{inapplicablePatch}, ps[at:]...)...)
+		if rapid.IntRange(0, 2).Draw(t, "replaceBehind") == 0 {
+			ps = append(ps, map[string]interface{}{"action": "replace", "document": map[string]interface{}{"publicKeys": []interface{}{genDocKey(t, "after-failure", true)}}})
+		}
+		b.Delta["patches"] = ps
 		h := refHash(b.Delta, alg)
 		if typ == "create" {
 			b.SuffixData["deltaHash"] = h
